@@ -14,10 +14,12 @@ The walk is complete by construction:
   are models: they are counted as 2^(free variables) and, if models are being
   listed, expanded one by one.
 
-Nothing else prunes.  The branching variable is taken from a shortest clause
-that is not yet satisfied (ties: first clause, first literal), which keeps the
-tree small on formulas that have a short tree-like refutation; an optional
-static `order` (list of variables) is consulted first.
+Nothing else prunes.  The branching variable is taken from a clause that is
+not yet satisfied, preferring clauses that already have a false literal and
+among those the fewest unassigned literals (ties: first clause, first
+literal); this keeps the tree small on formulas that have a short tree-like
+refutation.  An optional static `order` (list of variables) is consulted
+first.  The order only decides which tree is walked, never what is pruned.
 
 `selftest()` compares the walk with the bit-parallel truth table of engine.tt
 on an exhaustive family of small CNFs.
@@ -54,6 +56,7 @@ def walk(n, clauses, order=None, limit_models=None, node_cap=None,
     # per clause: number of true literals, number of unassigned literals
     ntrue = [0] * ncl
     nfree = [len(c) for c in cls]
+    clen = [len(c) for c in cls]
     unsat_cnt = [ncl]                # clauses without a true literal
     order = list(order or [])
     state = {'count': 0, 'nodes': 0}
@@ -122,14 +125,17 @@ def walk(n, clauses, order=None, limit_models=None, node_cap=None,
         for v in order:
             if assign[v] == 0:
                 return v
+        # prefer clauses that already lost a literal (stay where the last
+        # decisions had an effect), then the fewest unassigned literals
         best = None
-        bestlen = None
+        bestkey = None
         for idx in range(ncl):
             if ntrue[idx] == 0:
                 k = nfree[idx]
-                if bestlen is None or k < bestlen:
-                    best, bestlen = idx, k
-                    if k == 2:
+                key = (0 if k < clen[idx] else 1, k)
+                if bestkey is None or key < bestkey:
+                    best, bestkey = idx, key
+                    if key == (0, 2):
                         break
         for lit in cls[best]:
             if assign[abs(lit)] == 0:
